@@ -703,7 +703,7 @@ def search(ck: Ck, root: str) -> None:
             if key not in found or size < len(repr(found[key][1])):
                 found[key] = (what, rep)
 
-    n = ck.budget(40, 400)
+    n = ck.budget(80, 400)
     for i in range(n):
         files = CORPUS_SETS[i] if i < len(CORPUS_SETS) else gen_files(ck.rng)
         if not files:
@@ -725,7 +725,7 @@ def search(ck: Ck, root: str) -> None:
     ck.sample({'file_set': [nm for nm, _ in CORPUS_SETS[0]], 'folder_arguments': folder_candidates(random.Random(1), CORPUS_SETS[0])[:12],
                'query_spellings_of_first': spellings(random.Random(1), CORPUS_SETS[0][0][0])})
     # chains: random members; for small chains every ordering
-    m = ck.budget(50, 500)
+    m = ck.budget(80, 500)
     for i in range(m):
         g = CORPUS_CHAINS[i] if i < len(CORPUS_CHAINS) else gen_chain(ck.rng)
         if g is None:
